@@ -6,6 +6,7 @@ HARNESSES = ['h_c01.cpp', 'h_load.cpp']
 LEVEL = 'translation_validation'
 def OPTS(tier): return ['O0', 'O1', 'O2'] if tier == 'quick' else ['O0', 'O1', 'O2', 'O3']
 BUDGET = {'quick': 290, 'thorough': 3000}
+JOB_TIMEOUT = {'quick': 600, 'thorough': 1500}     # one configuration is executed at three (thorough: up to five) optimisation levels
 BOUNDS = {'quick': 'the same linked module (library + harness) encoded from clang-14 IR at -O0, -O1, -O2; corpora: C01 build->write->load configurations (12) and C02/C04 load->save->load files (7 layouts, plus 2 files cut inside their data section like the Optotrak.c3d of the repository) with symbolic payload, run with the SAME symbolic variables on every encoding. For every pair of paths (one per encoding) whose path conditions are jointly satisfiable: same outcome / exception class, observation-for-observation equality and output-byte-for-output-byte equality decided by z3. On the -O0 encoding additionally: no value derived from never-written memory reaches an observation, an output byte or a branch',
           'thorough': 'plus -O3; 27 C01 configurations and every C02 layout'}
 OUTSIDE = 'g++ code generation (the project\'s compiler) and the static/shared axis: there is no machine-code or linker model here, stated as reduced strength; vectorised code (vectorisers are off in the encodings)'
@@ -20,7 +21,7 @@ def jobs(tier, seed):
     names = ('zeros1+block3', 'zero_prologue', 'analog_empty', 'sparse_ids', 'labels_fewer', 'events3', 'no_points') if tier == 'quick' else None
     for j in c02.jobs('quick', seed):
         if (names is None and not is_sweep(j)) or (names is not None and j['name'] in names):
-            j = dict(j); j['cfg'] = {'gens': 1 if tier == 'quick' else 2, 'dump': 1, 'obsfiles': 0}; j['family'] = 'file'
+            j = dict(j); j['cfg'] = {'gens': 1, 'dump': 1, 'obsfiles': 0}; j['family'] = 'file'
             if tier == 'thorough': j['opts'] = dict(j['opts'], symbolic_meta=False)
             if tier == 'quick': j['opts'] = dict(j['opts'], extras=j['opts'].get('extras', [])[:1], symbolic_meta=False); j['shape'] = dict(j['shape'], F=1)
             out.append(j)
@@ -28,9 +29,47 @@ def jobs(tier, seed):
     for name, cut in (('truncated-in-data', 13), ('truncated-last-frame', 40)):
         out.append({'entry': 'h_load', 'harness': 'h_load.cpp', 'name': name, 'cfg': {'gens': 1, 'dump': 1, 'obsfiles': 0}, 'family': 'file', 'truncate': cut,
                     'shape': {'P': 2, 'C': 0, 'sub': 0, 'F': 3}, 'lay': {}, 'opts': {'analog': 'empty', 'symbolic_meta': False}})
+    out.append({'entry': 'h_c19_rates', 'harness': 'h_c01.cpp', 'name': 'rates', 'family': 'rates', 'cfg': {}})
     return out
 
+def run_rates(engine, job):
+    """float -> unsigned 64-bit conversion sites reachable with an operand >= 2^64 (free POINT:RATE / ANALOG:RATE)"""
+    res = new_result()
+    eng = engine('O0'); eng.track_fptoui64 = True
+    q0 = eng.sc.queries; t0 = eng.sc.time
+    try:
+        paths = api.run_fn(eng, job['entry'], cfg=job.get('cfg'), wall=200, maxsteps=100_000_000)
+    finally:
+        eng.track_fptoui64 = False
+    seen = set()
+    for r in paths:
+        add_path(res, r)
+        if r.st is None: continue
+        if r.kind in ('TIMEOUT', 'unsupported', 'inconclusive', 'budget'): res['inconclusive'].append('rates at -O0: %s' % describe_end(r))
+        for e in r.st.events:
+            if e[0] != 'fptoui64-beyond-range': continue
+            key = (short_fn(e[1]), e[2])
+            if key in seen: continue
+            res['obligations'] += 1
+            m = eng.sc.check(r.st.pc) if e[3] is True else eng.sc.check(r.st.pc, e[3])
+            if m is None: res['discharged'] += 1; continue
+            seen.add(key)
+            add_violation(res, '%s/rates/compiler-dependent-conversion@%s#%d' % (ID, key[0], key[1]), 'float -> unsigned 64-bit conversion number %d of %s can be reached with an operand >= 2^64 (undefined in ISO C++; g++ and clang++ emit different instruction sequences for it)' % (key[1], key[0]),
+                          replay_of(eng, r.st, m, job, None), 'candidate')
+    res['sample'] = {'configuration': 'free POINT:RATE and ANALOG:RATE on a new object', 'paths': len(paths), 'conversion_sites_reachable_beyond_range': sorted('%s#%d' % k for k in seen)}
+    res['solver_queries'] += eng.sc.queries - q0; res['solver_s'] = eng.sc.time - t0
+    res['functions'] = sorted(f for f in eng.fn_executed if 'ezc3d' in f)
+    return res
+
+def native_confirm(nat, v):
+    """only for the conversion candidates: the same inputs on a g++ and on a clang++ build of the working tree must give different observations"""
+    if v.get('class') != 'candidate': return None
+    outs = [nat.run(v['replay'], opt='O2', cxx=cxx) for cxx in ('g++', 'clang++-14')]
+    if any(o['rc'] != 0 for o in outs): return None
+    return outs[0]['obs'] != outs[1]['obs']
+
 def run_job(engine, job):
+    if job.get('family') == 'rates': return run_rates(engine, job)
     res = new_result()
     files = None; assume = None
     if job['family'] == 'file':
